@@ -380,6 +380,17 @@ Theorem post_send_skipped_refuted :
     forall evs', fx_finished (l_env (lrun_v0 fx_plugins_chk fx_blocked fx_env_step fx_ack st evs')) = false.
 Proof. exact fx_shutdown_hangs_v0. Qed.
 
+(** The built-in [wait] before its repair ([fx_plugins_chk_v0]) was NOT total: a [wait] request accepted
+    before a shutdown and handled after it made the plugin panic ([sender.send(()).unwrap()] on a closed
+    channel), the connection was dropped with an empty reply -- neither [ok] nor [error] (reproduced on
+    the real code, fixed); with the repaired plugin the same history ends with [ok]. *)
+Theorem wait_after_shutdown_refuted :
+  let evs := [EConnect 1; EConnect 2; ESend 2 (B "shutdown"); EFin 2; EHandle 2; ESend 1 (B "wait"); EFin 1; EHandle 1] in
+  conn_get 1 (l_conns (lrun fx_plugins_chk_v0 fx_blocked fx_env_step fx_ack (lts_init fx_init) evs)) = Some (PReplied []) /\
+  conn_get 1 (l_conns (lrun fx_plugins_chk fx_blocked fx_env_step fx_ack (lts_init fx_init) evs)) = Some (PReplied (B "ok")) /\
+  ~ plugins_total fx_plugins_chk_v0.
+Proof. exact fx_wait_after_shutdown_v0. Qed.
+
 (** Non-vacuity of the second strengthening. *)
 Definition ex_coll : collection :=
   {| c_hosts := [ {| h_name := B "my host"; h_files := Some [B "/a b"; B "x"]; h_pages := Some [RPath (B "/p"); RPathQuery (B "/q") (B "x=1")] |};
